@@ -24,7 +24,7 @@ def load_known():
         return []
 
 
-def proof_step(prop):
+def proof_step(prop, tier='quick'):
     """Build the property's cone with a full .vo make; audit it. -> dict"""
     vfile = 'theories/Properties/%s.v' % prop
     info = {'file': vfile, 'ok': False, 'obligations': 0, 'discharged': 0, 'assumptions': [], 'log': ''}
@@ -77,6 +77,16 @@ def proof_step(prop):
     if bad:
         info['broken'] = 'forbidden tokens: %s' % bad[:5]
         return info
+    if tier == 'thorough':
+        # independent re-check of the compiled files and everything they depend on
+        with lib.Lock('coq'):
+            rc2, out2 = lib.sh(['coqchk', '-o', '-silent', '-Q', 'theories', 'RL', 'RL.Properties.' + prop], cwd=lib.COQ, timeout=3000)
+        summary = out2[out2.find('CONTEXT SUMMARY'):] if 'CONTEXT SUMMARY' in out2 else out2[-1500:]
+        info['coqchk'] = ' '.join(summary.split())
+        want = ['Axioms: <none>', 'type-in-type: <none>', 'unsafe (co)fixpoints: <none>', 'positivity is assumed: <none>']
+        if rc2 != 0 or not all(w in info['coqchk'] for w in want):
+            info['broken'] = 'coqchk: ' + info['coqchk'][:600]
+            return info
     info['ok'] = True
     info['discharged'] = nthm
     return info
@@ -118,12 +128,12 @@ def main():
         out_lines.append('VIOLATION property=%s replay=%s%s' % (prop, path, '' if found else ' no-failing-input-found'))
 
     # 1. the proof
-    pinfo = proof_step(prop)
+    pinfo = proof_step(prop, tier)
     cov = evidence['coverage']
     cov.update({'obligations': max(1, pinfo['obligations']), 'discharged': pinfo['discharged'],
                 'checker_cmd': 'make -C coq %so  (coqc 8.16.1, full .vo build) + Print Assumptions + forbidden-token scan' % pinfo['file'],
                 'trusted_base': TRUSTED_BASE, 'proof_cone': pinfo.get('cone', []),
-                'print_assumptions': pinfo['assumptions']})
+                'print_assumptions': pinfo['assumptions'], 'coqchk': pinfo.get('coqchk', 'not run in the quick tier')})
     evidence['assumptions'] = list(spec.get('assumes', []))
 
     # 2. executors, rebuilt from the repository's current working tree
